@@ -410,6 +410,21 @@ def posterior_case(ctx, rng, idx):
     ds = _posterior_dataset(rng, var_names, n_chains, n_draws, ids)
     # shuffle the variable order of the dataset
     ds = ds[[var_names[i] for i in rng.permutation(len(names))]]
+    who = ids[int(rng.integers(len(ids)))]
+    arg = who if rng.random() < 0.8 else None
+    # the dataset may have been reduced to one individual beforehand, the
+    # usual xarray ways (the selected ID stays as a scalar coordinate, as a
+    # dimension of length one, or is dropped)
+    pre = ['no', 'no', 'sel_scalar', 'sel_list', 'isel_drop'][
+        int(rng.integers(5))]
+    if pre == 'sel_scalar':
+        ds = ds.sel(individual=who)
+    elif pre == 'sel_list':
+        ds = ds.sel(individual=[who])
+    elif pre == 'isel_drop':
+        ds = ds.isel(individual=ids.index(who), drop=True)
+    if arg is None and pre == 'no':
+        who = ids[0]
     try:
         ppm = chi.PosteriorPredictiveModel(pm, ds, param_map) \
             if param_map or rng.random() < 0.5 else \
@@ -420,10 +435,6 @@ def posterior_case(ctx, rng, idx):
                           {'family': 'posterior', 'map': map_kind})
         return
     ctx.count('param_map_' + map_kind)
-    who = ids[int(rng.integers(len(ids)))]
-    arg = who if rng.random() < 0.8 else None
-    if arg is None:
-        who = ids[0]
     n = int(rng.integers(1, 30))
     times = rng.permutation(np.array([0.4, 0.9, 1.3, 2.2]))[
         :int(rng.integers(1, 4))]
@@ -431,9 +442,9 @@ def posterior_case(ctx, rng, idx):
     feats = {'family': 'posterior', 'n_chains': n_chains,
              'n_draws': n_draws, 'n_individuals': len(ids),
              'individual': arg, 'n_samples': n, 'map': map_kind,
-             'param_map': param_map}
+             'param_map': param_map, 'preselected': pre}
     ctx.case(('posterior', n_chains, min(n_draws, 8), len(ids), arg is None,
-              map_kind), True, sample=feats)
+              map_kind, pre), True, sample=feats)
     try:
         df, calls = _tap(lambda: ppm.sample(times, n_samples=n,
                                             individual=arg, seed=seed))
